@@ -143,6 +143,8 @@ var attrPool = []struct{ Name, T string }{
 	{"s1", "S"}, {"s2", "S"}, {"n1", "N"}, {"n2", "N"}, {"b1", "B"}, {"flag", "BOOL"}, {"nul", "NULL"},
 	{"l1", "L"}, {"m1", "M"}, {"ss1", "SS"}, {"ns1", "NS"}, {"bs1", "BS"}, {"v", "S"}, {"w", "N"},
 	{"name", "S"}, {"size", "N"}, {"a.b", "S"}, {"x", "*"}, {"y", "*"},
+	// names that differ from others in letter case only: attribute names are case-sensitive
+	{"V", "S"}, {"N1", "N"}, {"S1", "S"},
 }
 
 func genItem(r *Rng, o ValOpts) Item {
